@@ -30,7 +30,7 @@ def run(tier, seed, selftest=False, replay=None):
     nshapes = 0
     if not replay and not selftest:
         # expression shapes (HExprGen): every binary expression over 12 operand kinds and 6 operators, as real programs, 4 translators
-        g = tlc_must("HExprGen", cfg(init="Init", next_="Next", constraints=["Emit"]), workers=1, name="gen_expr", timeout=600)
+        g = tlc_must("HExprGen", cfg(init="Init", next_="Next", constraints=["Emit"], constants={"Nested": "TRUE" if tier != "quick" else "FALSE"}), workers=1, name="gen_expr", timeout=600)
         seen, shapes = set(), []
         for j in g.json:
             kx = json.dumps(j, sort_keys=True)
@@ -52,7 +52,11 @@ def run(tier, seed, selftest=False, replay=None):
         progs = {p["id"]: p for p in read_json(f)["progs"]}
         if v.distinct != len(progs):
             raise MachineryError("validated %d of %d programs" % (v.distinct, len(progs)))
+        done = set()
         for j in v.json:
+            if j["prog"] in done:        # (TLC evaluates the reporting constraint on an initial state more than once)
+                continue
+            done.add(j["prog"])
             nprog += 1
             nprobes += j["probes"]
             p = progs[j["prog"]]
@@ -66,7 +70,7 @@ def run(tier, seed, selftest=False, replay=None):
                             "%s %r: expected %d occurrence(s) in the %s text of %s, found %d" % (kind, name, exp, p["lang"], p["id"], got))
     rc = verdict.finish()
     write_evidence(PID, tier, seed, "exploration", {
-        "expression_shapes": {"shapes": nshapes, "languages": 4, "rule": "HExprGen: val res = (L op R) for every pair of 12 operand kinds and 6 operators, built as real "
+        "expression_shapes": {"shapes": nshapes, "languages": 4, "rule": "HExprGen: val res = (L op R) for every pair of 12 operand kinds and 6 operators (thorough: also ((L op M) op2 R) and (L op (M op2 R)) over 6 kinds and 3 operators), built as real "
                               "programs and translated by the real translators; judged by the same HInventory / HSurface facts (model_checking within that family)"},
         "evaluations": nprobes + nhdr, "distinct_nontrivial": nprog, "headers_compared": nhdr,
         "rule": "generated, erased and overwritten programs of 4 languages are translated by the real translators; for every class, function, "
